@@ -116,7 +116,7 @@ def run_c15(cx):
     cx.validated_against_impl(n)
     if bad:
         raise RuntimeError(f"lazy jnp shim disagrees with real jnp on {bad[:3]}")
-    res, out, dt = run_crosshair(path, per_condition_timeout=90)
+    res, out, dt = run_crosshair(path, per_condition_timeout=600)
     st, msg = res.get("check_idxs", ("unknown", "no report line"))
     if st == "refuted":
         args = parse_call_args(msg) or {}
@@ -173,7 +173,9 @@ def _c19_concrete(kind, losses, patience, min_delta, rep):
 def run_c19(cx, tier="quick"):
     path = os.path.join(HERE, "c19_stop.py")
     sys.path.insert(0, ROOT)
-    t = 90 if tier == "quick" else 300
+    # the per-condition timeout only matters on a loaded machine: CrossHair returns as soon as every path is explored
+    t = 600 if tier == "quick" else 1500
+    os.environ["C19_MAXLEN"] = "3" if tier == "quick" else "4"
     res, out, dt = run_crosshair_parallel(path, per_condition_timeout=t, wall_timeout=3000)
     # which scalar representations are not `float` (measured on the real objects, recorded as a note)
     import numpy as np
